@@ -15,7 +15,7 @@ META = {
         "(equal / child merged in place / converted store) and removals/truncation/growth exist; (d) the 'None = resource missing' no-op convention is not applied to element values "
         "(a dominating not-None guard is required at every child _update call); (e) an in-place path for existing children exists; (f) loaders return None only for a missing "
         "resource and re-raise everything else, read the content on every path and keep no memory (they consult only the instance fields that address the resource and store none); the content read by the first "
-        "buffered access (_load_from_buffer) is merged on every path. Equality of merged values with the loaded values for all data is value-level and NOT decided."
+        "buffered access (_load_from_buffer) is merged on every path; (h) a loader returns an explicit None only on a path that witnessed the resource to be missing (missing-key/file handler, ENOENT arm, `is None` arm) - an empty file is not an absent one. Equality of merged values with the loaded values for all data is value-level and NOT decided."
     ),
     "rule": "contexts = class x reader x {root,nested} x mode (non-trivial: reads _data) + the _load/_update/_load_from_resource implementations",
     "trusted_base": ["engine call resolution and CFG"],
